@@ -39,6 +39,13 @@ CHECKS["C11"] = dict(
     note="Trusted: Coq kernel (no axioms), ExtrOcamlBasic + driver, Go harness + its reference map; goleveldb Get/Write/iterator snapshots and durability are environment (exercised by reopen steps). Bucket-listing theorem is partial (index well-formedness invariant not proved); write-transaction iterators, Bucket() after DeleteBucket and NewBucket twice are modelled and diffed but outside the property text.",
     technique="Coq proof (invariant by induction over operation logs, encoding injectivity, iteration exactness) + extracted-model differential correspondence on a real LevelDB + reference-map oracle",
 )
+CHECKS["C13"] = dict(
+    category="proof",
+    text="Coq theorems over all byte strings / all entropies / every hash and KDF function: NewMnemonic = bit-level BIP-39 encoding (all five sizes, leading zeros, illegal sizes); both decoders accept exactly the sentences with legal count, list words and correct checksum and return that entropy (strings.Fields with Unicode white space modelled); round trip; IsMnemonicValid characterised (no checksum); seed = BIP-39 PBKDF2 seed of the words for NFKD-stable passphrases; refutation theorem for the pre-fix raw-string seed. Tied to the code on every run by running the extracted model, the extracted bit-level spec and an independent Go BIP-39 against keystore.* on generated entropies and mutated/re-spaced sentences; the word list is re-translated from wordlists/english.go on every run.",
+    design_ref="DESIGN.md section 5, C13",
+    note="Trusted: Coq kernel incl. vm_compute on the generated word list and byte sweeps; ExtrOcamlBasic + driver with primitive lookup tables; Go harness and its independent reference (list copy checked by sha256 and six official vectors); word-list translator. SHA-256/PBKDF2/NFKD are outside the property (values recorded from crypto/*). No axioms. Known finding seed:passphrase-not-nfkd; re-spaced mnemonic seed repaired (f149051).",
+    technique="Coq proof (big-integer = bit-string equivalence, acceptance iff, round trip) + extracted-model differential correspondence with primitive oracle tables + independent reference implementation",
+)
 NOT_YET = "not claimed yet in this round: model and correspondence under construction (see DESIGN.md section 9 for the order)"
 
 def main():
